@@ -155,5 +155,12 @@ pub fn run(ctx: &Ctx) {
     );
     let n = ctx.tier.pick(10_000, 100_000);
     ctx.par_proptest("deep-and-wide", n, || (arb_path(), schematree::arb_deep_or_wide(220, 150)), |(p, t), l| check(p, t, false, l));
+    let n = ctx.tier.pick(5_000, 50_000);
+    ctx.par_proptest(
+        "array-then-new-types",
+        n,
+        || (arb_path(), schematree::arb_array_then_types(TreeCfg { depth: 3, width: 4, exotic: true })),
+        |(p, t), l| check(p, t, false, l),
+    );
     super::corpus_checks::c16(ctx);
 }
